@@ -257,6 +257,10 @@ func (s *c10Sim) apply(op c10Op) {
 			if len(s.pending) > 0 {
 				s.tag("close with values still pending")
 			}
+		} else if s.closePC == 4 {
+			s.tag("close/a further Close call after one has returned")
+		} else {
+			s.tag("close/A FURTHER CLOSE CALL WHILE THE FIRST HAS NOT RETURNED (overlapping)")
 		}
 	}
 	s.settle()
